@@ -55,3 +55,28 @@ Definition src_tchunk (c : TChunk) : GoSrc.PacketStatusChunk :=
 Definition src_twcc (t : TWCC) : GoSrc.TransportLayerCC :=
   GoSrc.mkTransportLayerCC (src_header (tw_hdr t)) (Z.of_N (tw_sender t)) (Z.of_N (tw_media t)) (Z.of_N (tw_base t))
     (Z.of_N (tw_count t)) (Z.of_N (tw_reftime t)) (Z.of_N (tw_fb t)) (map src_tchunk (tw_chunks t)) (map src_delta (tw_deltas t)).
+
+(* the Packet interface as the closed sum GoSrc.Packet; ExtendedReport and ReceiverEstimatedMaximumBitrate are the model's
+   own types there (Check/GoOpaque.v).  A CompoundPacket is not a member of the sum: it maps to the nil interface value and
+   every statement about lists excludes it. *)
+From RTCP Require Import Model.Packet Model.Xr Model.Remb Check.GoOpaque.
+Definition src_packet (p : packet) : GoSrc.Packet :=
+  match p with
+  | PSR x => GoSrc.Packet_SenderReport (src_sr x)
+  | PRR x => GoSrc.Packet_ReceiverReport (src_rr x)
+  | PSDES x => GoSrc.Packet_SourceDescription (src_sdes x)
+  | PBYE x => GoSrc.Packet_Goodbye (src_bye x)
+  | PAPP x => GoSrc.Packet_ApplicationDefined (src_app x)
+  | PNACK x => GoSrc.Packet_TransportLayerNack (src_nack x)
+  | PRRR x => GoSrc.Packet_RapidResynchronizationRequest (src_rrr x)
+  | PTWCC x => GoSrc.Packet_TransportLayerCC (src_twcc x)
+  | PCCFB x => GoSrc.Packet_CCFeedbackReport (src_ccfb x)
+  | PPLI x => GoSrc.Packet_PictureLossIndication (src_pli x)
+  | PSLI x => GoSrc.Packet_SliceLossIndication (src_sli x)
+  | PREMB x => GoSrc.Packet_ReceiverEstimatedMaximumBitrate x
+  | PFIR x => GoSrc.Packet_FullIntraRequest (src_fir x)
+  | PXR x => GoSrc.Packet_ExtendedReport x
+  | PRaw b => GoSrc.Packet_RawPacket b
+  | PCompound _ => GoSrc.Packet_nil
+  end.
+Definition not_compound (p : packet) : Prop := match p with PCompound _ => False | _ => True end.
